@@ -176,6 +176,7 @@ func (e *Exec) runPath(fn *ssa.Function, prefix []bool) {
 	}
 	arrIDs = map[*Cell]int{}
 	onceDone = map[*Cell]bool{}
+	mutexHeld = map[*Cell]bool{}
 	builders = map[*Cell]string{}
 	globals = map[*ssa.Global]*Cell{}
 	cellOwner = map[*Cell]*ssa.Global{}
@@ -633,6 +634,12 @@ func (e *Exec) runFrame(fr *frame, args []Value) Value {
 				}
 				e.progress++
 				ch.C.Q = append(ch.C.Q, e.val(fr, in.X))
+				if ch.C.Cap == 0 && e.curCoro != nil {
+					// rendezvous: the sender goes on only once a receiver has taken the value
+					for len(ch.C.Q) > 0 && !ch.C.Closed {
+						e.blockedStep("on unbuffered send in " + fn.String())
+					}
+				}
 			case *ssa.Go:
 				// sequential mode: record, do not run
 			case *ssa.MapUpdate:
@@ -1901,6 +1908,7 @@ func resetWorld() {
 	cellOwner = map[*Cell]*ssa.Global{}
 	arrIDs = map[*Cell]int{}
 	onceDone = map[*Cell]bool{}
+	mutexHeld = map[*Cell]bool{}
 	builders = map[*Cell]string{}
 	errCounter = 0
 }
